@@ -798,11 +798,11 @@ class ProtobufReader(Converter):
             start_time = self.convert(msg.start_time)
             end_time = self.convert(msg.end_time)
             duration = end_time - start_time
-            return (
-                id,
-                action_instance,
-                (start_time, None if duration == 0 else duration),
-            )
+            # only a non-durative action has no duration (None); a durative
+            # action keeps its duration also when it is 0
+            if duration == 0 and not isinstance(action_instance.action, DurativeAction):
+                duration = None
+            return (id, action_instance, (start_time, duration))
         else:
             return id, action_instance, None
 
